@@ -18,11 +18,12 @@
 //!               clusters = - | cluster('+'cluster)*          cluster = id=attrs=cmds
 //!               attrs/cmds = - | leaf('/'leaf)*              leaf = id.access.on
 //!     requests  request(';'request)*   request = op,flag,ff,win,elapsed,swaps,items
-//!               op R|W|I; win n|<ms>; swaps - | k>j[/a](':'k>j[/a])*  (after k handler calls: node j, ACL table a);
+//!               op R|W|I|C (C = continuation chunk of the preceding W/C on the same exchange: that one is sent with
+//!               MoreChunkedMessages; its elapsed = ms waited before it is sent; win/ff unused); win n|<ms>; swaps - | k>j[/a](':'k>j[/a])*  (after k handler calls: node j, ACL table a);
 //!               items item('&'item)*
 //!               item = ep.cl.leaf[^ref]   (x = wildcard)
 //! output:  Q <id> <resp>( <resp>)*
-//!     resp = X<code> | I[entry,..]L[call,..] | E<text>
+//!     resp = X<code> | I[entry,..]L[call,..] | E<text> | N (continuation chunk not sent: an earlier chunk was refused)
 //!     entry = D<e>.<c>.<l>[^ref] | S<path>[^ref]:<code>
 //!     call  = R<e>.<c>.<l>.<fab>.<ff> | W<e>.<c>.<l>.<fab> | V<e>.<c>.<l>.<fab>
 use core::num::NonZeroU8;
@@ -365,6 +366,7 @@ struct Req {
     elapsed: u64,
     swaps: Vec<(usize, usize, usize)>,
     items: Vec<Item>,
+    more: bool,
 }
 
 fn parse_item(s: &str) -> Item {
@@ -401,6 +403,7 @@ fn parse_req(s: &str) -> Req {
             })
             .collect(),
         items: plist(f[6], '&').into_iter().map(parse_item).collect(),
+        more: false,
     }
 }
 
@@ -430,7 +433,7 @@ fn write_request(req: &Req, wb: &mut rs_matter::utils::storage::WriteBuf<'_>) ->
             wb.bool(&TLVTag::Context(3), req.ff)?;
             OpCode::ReadRequest
         }
-        'W' => {
+        'W' | 'C' => {
             wb.bool(&TLVTag::Context(0), false)?;
             wb.bool(&TLVTag::Context(1), req.flag)?;
             wb.start_array(&TLVTag::Context(2))?;
@@ -447,6 +450,9 @@ fn write_request(req: &Req, wb: &mut rs_matter::utils::storage::WriteBuf<'_>) ->
                 wb.end_container()?;
             }
             wb.end_container()?;
+            if req.more {
+                wb.bool(&TLVTag::Context(3), true)?;
+            }
             OpCode::WriteRequest
         }
         _ => {
@@ -477,8 +483,9 @@ fn status_only(payload: &[u8]) -> Result<String, Error> {
     Ok(format!("X{}", s.status as u16))
 }
 
-/// One request on a fresh exchange; returns the canonical response (without the handler log).
-async fn do_request(ctl: &Matter<'_>, dev_node: u64, req: &Req) -> Result<String, Error> {
+/// Open a fresh exchange for `req` (sending the TimedRequest and waiting, if it asks for one).
+/// `Err(token)`: the TimedRequest itself was not accepted.
+async fn open_exchange<'a>(ctl: &'a Matter<'a>, dev_node: u64, req: &Req) -> Result<Result<Exchange<'a>, String>, Error> {
     let crypto = test_only_crypto();
     let mut ex = Exchange::initiate(ctl, &crypto, NonZeroU8::new(1).unwrap(), dev_node).await?;
     if let Some(ms) = req.win {
@@ -489,13 +496,13 @@ async fn do_request(ctl: &Matter<'_>, dev_node: u64, req: &Req) -> Result<String
         .await?;
         let rx = ex.recv().await?;
         if rx.meta().proto_opcode != OpCode::StatusResponse as u8 {
-            return Ok(format!("Eopcode{}", rx.meta().proto_opcode));
+            return Ok(Err(format!("Eopcode{}", rx.meta().proto_opcode)));
         }
         let st = StatusResp::from_tlv(&TLVElement::new(rx.payload()))?;
         drop(rx);
         if st.status != IMStatusCode::Success {
             ex.acknowledge().await?;
-            return Ok(format!("X{}", st.status as u16));
+            return Ok(Err(format!("X{}", st.status as u16)));
         }
         if req.elapsed > 0 {
             // acknowledge first so that the device does not retransmit while we wait
@@ -503,6 +510,12 @@ async fn do_request(ctl: &Matter<'_>, dev_node: u64, req: &Req) -> Result<String
             Timer::after(Duration::from_millis(req.elapsed)).await;
         }
     }
+    Ok(Ok(ex))
+}
+
+/// Send one request message on the exchange and collect its answer (all chunks of a ReportData);
+/// returns the canonical response without the handler log. The last message received is not acknowledged.
+async fn exchange_one(ex: &mut Exchange<'_>, req: &Req) -> Result<String, Error> {
     ex.send_with(|_, wb| {
         let opcode = write_request(req, wb)?;
         Ok(Some(opcode.meta()))
@@ -604,8 +617,43 @@ async fn do_request(ctl: &Matter<'_>, dev_node: u64, req: &Req) -> Result<String
             break;
         }
     }
-    ex.acknowledge().await?;
     Ok(result)
+}
+
+/// One request (for a write: all its chunks) on a fresh exchange. Pushes one token per element of
+/// `group` onto `tokens`: the canonical response with the handler log of that message, or `N`.
+async fn do_group(ctl: &Matter<'_>, dev_node: u64, hnd: &Hnd<'_>, group: &[Req], tokens: &RefCell<Vec<String>>) -> Result<(), Error> {
+    let mut ex = match open_exchange(ctl, dev_node, &group[0]).await? {
+        Ok(ex) => ex,
+        Err(tok) => {
+            tokens.borrow_mut().push(tok);
+            return Ok(());
+        }
+    };
+    for (i, req) in group.iter().enumerate() {
+        if i > 0 {
+            ex.acknowledge().await?;
+            if req.elapsed > 0 {
+                Timer::after(Duration::from_millis(req.elapsed)).await;
+            }
+        }
+        hnd.begin(req.swaps.clone());
+        let body = exchange_one(&mut ex, req).await?;
+        // let the device finish with the message before the log is read
+        Timer::after(Duration::from_millis(1)).await;
+        let log = hnd.log.borrow().join(",");
+        let served = body.starts_with('I');
+        if served || !log.is_empty() {
+            tokens.borrow_mut().push(format!("{body}L[{log}]"));
+        } else {
+            tokens.borrow_mut().push(body);
+        }
+        if !served {
+            break;
+        }
+    }
+    ex.acknowledge().await?;
+    Ok(())
 }
 
 fn leaked_dev_det(max_paths: u16) -> &'static BasicInfoConfig<'static> {
@@ -643,7 +691,12 @@ fn run_line(line: &str, out: &mut String) {
         k => panic!("bad accessor kind {k}"),
     };
     let nodes: Vec<&'static Node<'static>> = f[5].split('#').map(build_node).collect();
-    let reqs: Vec<Req> = f[6].split(';').map(parse_req).collect();
+    let mut reqs: Vec<Req> = f[6].split(';').map(parse_req).collect();
+    for i in 0..reqs.len() {
+        if i + 1 < reqs.len() && reqs[i + 1].op == 'C' && (reqs[i].op == 'W' || reqs[i].op == 'C') {
+            reqs[i].more = true;
+        }
+    }
 
     let crypto = test_only_crypto();
     let dev = Matter::new(leaked_dev_det(max_paths), TEST_DEV_COMM, &TEST_DEV_ATT, 5540);
@@ -690,27 +743,37 @@ fn run_line(line: &str, out: &mut String) {
         )
         .coalesce();
         let flow = async {
-            for req in &reqs {
-                hnd.begin(req.swaps.clone());
-                let r = e2e::with_timeout(8000, do_request(&ctl, DEV_NODE, req)).await;
-                let body = match r {
-                    Some(Ok(s)) => s,
-                    Some(Err(e)) => format!("Eerr:{:?}", e.code()),
-                    None => "Ehang".to_string(),
+            let mut i = 0;
+            while i < reqs.len() {
+                let mut j = i + 1;
+                while j < reqs.len() && reqs[j].op == 'C' && (reqs[i].op == 'W' || reqs[i].op == 'C') {
+                    j += 1;
+                }
+                let group = &reqs[i..j];
+                let before = results.borrow().len();
+                let wait: u64 = group.iter().map(|r| r.elapsed).sum();
+                let r = e2e::with_timeout(8000 + wait, do_group(&ctl, DEV_NODE, &hnd, group, &results)).await;
+                let hang = match r {
+                    Some(Ok(())) => false,
+                    Some(Err(e)) => {
+                        results.borrow_mut().push(format!("Eerr:{:?}", e.code()));
+                        false
+                    }
+                    None => {
+                        results.borrow_mut().push("Ehang".to_string());
+                        true
+                    }
                 };
+                while results.borrow().len() < before + group.len() {
+                    results.borrow_mut().push("N".to_string());
+                }
+                results.borrow_mut().truncate(before + group.len());
                 // let the device finish the exchange before the next request resets the handler
                 Timer::after(Duration::from_millis(1)).await;
-                let log = hnd.log.borrow().join(",");
-                if body.starts_with('I') {
-                    results.borrow_mut().push(format!("{body}L[{log}]"));
-                } else if log.is_empty() {
-                    results.borrow_mut().push(body);
-                } else {
-                    results.borrow_mut().push(format!("{body}L[{log}]"));
-                }
-                if results.borrow().last().map(|s| s.starts_with("Ehang")).unwrap_or(false) {
+                if hang {
                     break;
                 }
+                i = j;
             }
         };
         match select(core::pin::pin!(device), core::pin::pin!(flow)).await {
@@ -1038,7 +1101,29 @@ fn rand_request(rng: &mut Rng, nodes: &[Vec<GEp>], hist: &mut BTreeMap<String, u
     } else {
         "-".to_string()
     };
-    format!("{op},{flag},{ff},{win},{elapsed},{swaps},{}", items.join("&"))
+    let mut out = format!("{op},{flag},{ff},{win},{elapsed},{swaps},{}", items.join("&"));
+    if op == 'W' && !big && rng.chance(1, 5) {
+        // continued in one or two more chunks (each with its own TimedRequest flag)
+        for _ in 0..rng.range(1, 2) {
+            let cflag = if rng.chance(3, 4) { flag } else { 1 - flag };
+            let n = rng.range(1, 3);
+            let its: Vec<String> = (0..n)
+                .map(|_| {
+                    let (e, mut c, mut l) = pick_path(rng, node, false, 10);
+                    if c == "x" {
+                        c = rng.pick(&CL_POOL).to_string();
+                    }
+                    if l == "x" {
+                        l = "1".into();
+                    }
+                    format!("{e}.{c}.{l}")
+                })
+                .collect();
+            out.push_str(&format!(";C,{cflag},0,n,0,-,{}", its.join("&")));
+            *hist.entry("write_continuation_chunks".into()).or_insert(0) += 1;
+        }
+    }
+    out
 }
 
 fn generate(tier: &str, seed: u64) -> (Vec<String>, BTreeMap<String, u64>) {
@@ -1153,6 +1238,38 @@ fn generate(tier: &str, seed: u64) -> (Vec<String>, BTreeMap<String, u64>) {
         reqs.push("I,0,0,n,0,1>0/1,0.6.0^1&0.6.1^2".to_string());
         cases.push(format!("Q {} 4 {}!{} SC,1,{N1},0/0/0,0,0 {} {}", nid(), t0, t1, acl_node, reqs.join(";")));
         *hist.entry("acl_switch_scripted_lines".into()).or_insert(0) += 1;
+    }
+
+    // ---- writes continued in a second / third chunk: every combination of the chunks' own TimedRequest flags,
+    //      with / without a preceding TimedRequest, and with the window expiring between chunks
+    //      (attributes 2 and 3 are timed-only)
+    let cw_node = "0~22~6=0.17.1/1.57.1/2.313.1/3.313.1=-";
+    let cw_items = ["0.6.2&0.6.1", "0.6.3&0.6.1", "0.6.2"];
+    let mut cw_groups: Vec<String> = Vec::new();
+    for win in ["n", "10000", "150"] {
+        for nchunks in [2usize, 3] {
+            for flags in 0..(1u32 << nchunks) {
+                let lates: Vec<usize> = if win == "150" { (0..nchunks).collect() } else { vec![0] };
+                for late in lates {
+                    let mut g = Vec::new();
+                    for k in 0..nchunks {
+                        let f = (flags >> k) & 1;
+                        if k == 0 {
+                            g.push(format!("W,{f},0,{win},0,-,{}", cw_items[k]));
+                        } else {
+                            let wait = if late == k { 400 } else { 0 };
+                            g.push(format!("C,{f},0,n,{wait},-,{}", cw_items[k]));
+                        }
+                    }
+                    cw_groups.push(g.join(";"));
+                    *hist.entry(format!("chunked_write_groups_win_{win}")).or_insert(0) += 1;
+                }
+            }
+        }
+    }
+    for chunk in cw_groups.chunks(4) {
+        cases.push(format!("Q {} 4 {} SC,1,{N1},0/0/0,0,0 {} {}", nid(), admin, cw_node, chunk.join(";")));
+        *hist.entry("chunked_write_scripted_lines".into()).or_insert(0) += 1;
     }
 
     // ---- random stream
